@@ -1,9 +1,9 @@
 (* C05 - Client: every operation completes exactly once under cancel, Close and failure.
    Property theorems only; every proof is `exact <lemma>` (lemmas in coq/cli/CliC05.v, CliProofs.v, CliLive.v,
-   CliHist.v; invariants in coq/cli/CliInv.v, CliRet.v, CliCtx.v, CliOps.v, CliHist.v). *)
+   CliHist.v, CliWg.v; invariants in coq/cli/CliInv.v, CliRet.v, CliCtx.v, CliOps.v, CliHist.v, CliWg.v). *)
 From Coq Require Import List NArith ZArith Bool Arith.
 From RecordUpdate Require Import RecordUpdate.
-From JV Require Import Bytes Msg CliModel CliLemmas CliInv CliRet CliProofs CliC05 CliCtx CliOps CliHist CliLive.
+From JV Require Import Bytes Msg CliModel CliLemmas CliInv CliRet CliProofs CliC05 CliCtx CliOps CliHist CliLive CliWg.
 Import ListNotations.
 
 (* EXACTLY ONE RETURN (full statement).  In every history of every schedule each operation (Call, Batch, Notify,
@@ -28,6 +28,17 @@ Theorem c05_returns_once : forall c tr s, traces_to c tr s ->
         /\ (forall n o, op_at s n = Some o -> o_kind o = KClose -> wg s = 0 -> o_pc o = PDone /\ ret_count n (hist s) = 1)).
 Proof. exact returns_once_full. Qed.
 Print Assumptions c05_returns_once.
+
+(* Close at quiescence: the wait group counts exactly the reader, the parked deliveries and the live callback
+   handlers; a Close still blocked in done.Wait() ([blocked_close], see c05_returns_once) is waiting for a reader that
+   is blocked in Recv with nothing to read, on a channel whose Close does not unblock Recv (the peer has not closed
+   its end) - so on a channel whose Close unblocks Recv, or once the reader has exited, no Close is left blocked *)
+Theorem c05_close_returns : forall c tr s, traces_to c tr s -> quiescent s = true ->
+  wg s = rdc s + cnt deliv_parked (delivs s) + cnt cb_alive (cbs s)
+  /\ (forall n o, op_at s n = Some o -> blocked_close s o -> rd s = RIdle /\ ch_in s = [] /\ c_unblock s = false /\ err s <> None)
+  /\ (forall n o b, op_at s n = Some o -> o_pc o = PCloseWait b -> c_unblock s = true \/ rd s = RExited -> False).
+Proof. exact close_returns. Qed.
+Print Assumptions c05_close_returns.
 
 (* OUTCOME AND ONCANCEL (full statement, global counting form, every trace).
    For every allocated id the number of OnCancel observations in the whole history is 1 if the hook is configured
